@@ -30,12 +30,37 @@ example : ∃ s q, Mem.run (fun _ => true) {}
      .publish 3 [10, 20], .commitMerge [3] [1, 2], .tombstone 1, .tombstone 2, .qOpen 1, .qOpen 2] = some s ∧
     s.q = some q ∧ q.err = true := mem_same_schedules_aux.1
 
+private def nv_memEvs : List Ev :=
+  [.publish 1 [10, 11], .commitFlush 1, .publish 2 [20], .commitFlush 2, .qBegin,
+   .publish 3 [10, 11, 20], .commitMerge [3] [1, 2], .qSnap, .tombstone 1, .qOpen 3]
+
+/-- non-vacuity: the premises of `C14_memory` hold for a ten-event history (two flushes, a merge committed between the query's start and its snapshot, a tombstone before the read) with a selective predicate, and the theorem applies to it -/
+example : ∃ s q, Mem.run (fun r => r != 20) {} nv_memEvs = some s ∧
+    finishedOk s = some q ∧ q.ackedAtStart = [10, 11, 20] ∧ q.got = [10, 11] ∧
+    (q.got.Nodup ∧ (∀ r, r ∈ q.ackedAtStart → (r != 20) = true → r ∈ q.got) ∧
+      (∀ r, r ∈ q.got → r ∈ s.acked ∧ (r != 20) = true)) :=
+  ⟨_, _, rfl, rfl, rfl, rfl, C14_memory (fun r => r != 20) nv_memEvs _ _ rfl rfl⟩
+
 /-- Directory as MetaStore, histories without removals: nothing acknowledged before the query is omitted. -/
 theorem C14_directory_partial (m : Row → Bool) (evs : List Ev) (s : St) (q : Query)
     (hnorm : ∀ e ∈ evs, (∀ f, e ≠ .tombstone f))
     (hrun : Dir.run m {} evs = some s) (hq : finishedOk s = some q) :
     (∀ r, r ∈ q.ackedAtStart → m r = true → r ∈ q.got) :=
   dir_no_removal_consistent_aux m evs s q hnorm hrun hq
+
+private def nv_dirEvs : List Ev :=
+  [.publish 1 [10, 11], .commitFlush 1, .publish 2 [20], .commitFlush 2, .qBegin,
+   .publish 3 [30], .commitFlush 3, .qSnap, .publish 4 [10, 11, 20], .commitMerge [4] [1, 2],
+   .qOpen 1, .qOpen 2, .qOpen 3]
+
+/-- non-vacuity: the premises of `C14_directory_partial` hold for a removal-free history with two flushes before the query, a third flush and a merge publication during it; the theorem applies to it -/
+example : ∃ s q, (∀ e ∈ nv_dirEvs, (∀ f, e ≠ Ev.tombstone f)) ∧ Dir.run (fun r => r != 20) {} nv_dirEvs = some s ∧
+    finishedOk s = some q ∧ q.ackedAtStart = [10, 11, 20] ∧ q.got = [10, 11, 30] ∧
+    (∀ r, r ∈ q.ackedAtStart → (r != 20) = true → r ∈ q.got) :=
+  have hn : ∀ e ∈ nv_dirEvs, (∀ f, e ≠ Ev.tombstone f) := by
+    intro e he f; simp [nv_dirEvs] at he
+    rcases he with h | h | h | h | h | h | h | h | h | h | h | h | h <;> subst h <;> simp
+  ⟨_, _, hn, rfl, rfl, rfl, rfl, C14_directory_partial (fun r => r != 20) nv_dirEvs _ _ hn rfl rfl⟩
 
 /-- The full statement is false for the directory discipline: silent omission … -/
 theorem C14_directory_omission :
